@@ -11,6 +11,12 @@ namespace AITB.Cassandra
 theorem flags_current :
     Gen.Dispatch.flags.rowLenThrows = true ∧ Gen.Dispatch.flags.sizeGuard = true ∧ Gen.Dispatch.flags.nanDiscountRejected = true := by decide
 
+/-- what `resetPre` / `parseWith` and `extractIDs` assume about the state of a parser object: every parse resets `lines_`, the sizes
+    and the discount, and a declaration line clears its name table before filling it -/
+theorem dispatch_reset :
+    Gen.Dispatch.resetsLines = true ∧ Gen.Dispatch.resetsSizes = true ∧ Gen.Dispatch.resetsDiscount = true ∧
+    Gen.Dispatch.extractClearsMap = true := by decide
+
 /-- **Rejection, unconditional.**  Whatever the parser (as it is now) accepts is a well-formed file, and the
     returned tables are the specification semantics of its statements. -/
 theorem parser_accepts_only_wellformed_current {k : Kind} {text : Str} {r : Parsed}
